@@ -1269,15 +1269,22 @@ var FieldAlias map[string][2]string
 // to &c.atLeastOnce reads as c.atLeastOnce.seqSem.
 var ParamBind map[ssa.Value]ssa.Value
 
+// StaticParam, when set, gives what a parameter stands for whatever the path:
+// the argument that every call site of its (unexported) function passes, when
+// they all pass the same constant or read the same place.
+var StaticParam map[*ssa.Parameter]ssa.Value
+
 func boundParam(v ssa.Value) ssa.Value {
-	for d := 0; d < 4 && ParamBind != nil; d++ {
+	for d := 0; d < 4; d++ {
 		pr, ok := v.(*ssa.Parameter)
 		if !ok {
 			break
 		}
 		b, ok := ParamBind[pr]
 		if !ok || b == v {
-			break
+			if b, ok = StaticParam[pr]; !ok || b == v {
+				break
+			}
 		}
 		v = b
 	}
@@ -1366,6 +1373,11 @@ func RoleOfValue(v ssa.Value) Role {
 		return Role{Owner: owner, Field: name, Path: base.Path + "." + name, Base: base.Base}
 	case *ssa.ChangeType:
 		return RoleOfValue(x.X)
+	case *ssa.Parameter:
+		// what every caller passes (or, under ParamBind, what this path's caller passed)
+		if b := boundParam(x); b != ssa.Value(x) {
+			return RoleOfValue(b)
+		}
 	}
 	return Role{}
 }
